@@ -531,6 +531,16 @@ static struct thread_data *create_td(struct thread_init_data *d, struct tq *q, p
 #define create_stackful(d, q, s) create_td(d, q, s, false)
 #define create_stackless(d, q, s) create_td(d, q, s, true)
 static struct thread_data *id_ref_make(struct thread_data *p, int addref) { return p; }
+/* pika::detail::unlock_guard<Lock> ull(lk) inside create_thread_object / recycle_thread: the free lists are protected by mtx_ only.
+ * An object that back() picked and that pop_back() has not yet removed is still on its list: with the lock released another
+ * thread's create_thread_object is handed the same object (one stack, two tasks) */
+#define HEAP_BACK_OUTSTANDING(q) ((q)->thread_heap_small_.back_chosen || (q)->thread_heap_medium_.back_chosen || (q)->thread_heap_large_.back_chosen || \
+                                  (q)->thread_heap_huge_.back_chosen || (q)->thread_heap_nostack_.back_chosen)
+static void heap_unlock_guard(struct tq *q, struct ulock *lk)
+{
+  VX_ASSERT(!HEAP_BACK_OUTSTANDING(q), "the queue lock is not released between back() and pop_back(): the object picked is off its free list before another thread can look");
+  ulock_unlock(lk);
+}
 static void heap_init(struct heap *h) { h->n = nondet_long(); h->has_victim = false; h->back_chosen = false; h->back_is_victim = false; }
 
 /* ---- thread_queue::add_new: contract stub for add_new_always (unit hops.tq.add_new) ---- */
